@@ -278,6 +278,12 @@ def c10_programs(seed, tier):
     # (4) degenerate prototypes
     one("dup_intensity", [X, Y, Z, inten, rec("intensity", "int", 0, 5)])
     one("dup_x", [X, X, Y, Z])
+    # a duplicated component must not stand in for a missing one
+    one("dup_x_no_z", [X, X, Y])
+    one("dup_z_no_y", [X, Z, inten, Z])
+    one("dup_az_no_el", [A, A, R])
+    one("dup_red_no_blue", [X, Y, Z, cr, cr, cg])
+    one("dup_count_no_index", [X, Y, Z, rec("returnCount", "int", 0, 3), rec("returnCount", "int", 0, 3)])
     one("all_constant", xyz_sint(5, 5))
     one("all_constant_plus_flag", xyz_sint(0, 0) + [rec("rowIndex", "int", 3, 3)])
     one("one_constant", [X, Y, Z, rec("rowIndex", "int", 3, 3)])
@@ -326,6 +332,16 @@ def c10_programs(seed, tier):
         for wi, wv in enumerate(wrongs):
             bp = list(gp); bp[i] = wv
             one(f"const_slot{i}_{wi}", cp, pts=[gp, bp, gp])
+    # ranges that need 64 bits without being the full range
+    for mn, mx, bads in ((-1, I64MAX, (-2, I64MIN)), (I64MIN, 0, (1, I64MAX)), (-4 * 10**18, 6 * 10**18, (-4 * 10**18 - 1, 6 * 10**18 + 1, I64MAX, I64MIN)),
+                         (I64MIN + 1, I64MAX, (I64MIN,)), (I64MIN, I64MAX - 1, (I64MAX,))):
+        for t, mk in (("int", v_int), ("sint", v_sint)):
+            wr = [X, Y, Z, rec("intensity", t, mn, mx)]
+            gp = [v_f32(1.0), v_f32(2.0), v_f32(3.0), mk(mn)]
+            gp2 = [v_f32(1.0), v_f32(2.0), v_f32(3.0), mk(mx)]
+            for bv in bads:
+                bp = list(gp); bp[-1] = mk(bv)
+                one(f"range64_{t}_{mn}_{bv}", wr, pts=[gp, bp, gp2])
     sr = [X, Y, Z, rec("intensity", "sint", -100, 100, 0.5, 1.0)]
     for val in (-101, 101, 1 << 40):
         gp = default_point(sr); bp = list(gp); bp[-1] = v_sint(val)
@@ -626,7 +642,8 @@ def c05_programs(seed, tier):
                     if sflag:
                         proto.append(rec("sphericalInvalidState", "int", 0, 2))
                 if extra in (1, 3):
-                    proto += rgb(255) + [rec("isColorInvalid", "int", 0, 1)]
+                    # the three channels have different ranges; with extra == 3 the limits are removed (type ranges apply)
+                    proto += [rec("colorRed", "int", 0, 255), rec("colorGreen", "int", 0, 63), rec("colorBlue", "int", 0, 1023), rec("isColorInvalid", "int", 0, 1)]
                 if extra in (2, 3):
                     proto += [rec("intensity", "int", 0, 1000), rec("isIntensityInvalid", "int", 0, 1)]
                 if extra in (0, 3):
@@ -653,7 +670,7 @@ def c05_programs(seed, tier):
                             elif n == "sphericalInvalidState":
                                 p.append(v_int(ss))
                             elif n.startswith("color"):
-                                p.append(v_int((i * 37 + j * 11 + len(p)) % 256))
+                                p.append(v_int((i * 37 + j * 11 + len(p)) % (rc["max"] + 1)))
                             elif n == "isColorInvalid":
                                 p.append(v_int((i + j) % 2))
                             elif n == "intensity":
@@ -666,6 +683,8 @@ def c05_programs(seed, tier):
                                 p.append(v_int((i + j) % 11 - 5))
                         pts.append(p)
                 sets, pm = pose_parts(pose)
+                if extra == 3:
+                    sets = sets + [setter("color_limits", None)]
                 step = pc(proto, pts=pts, setters=sets)
                 step["pose_matrix"] = pm
                 out.append(prog(f"view_c{int(has_c)}{int(cflag)}_s{int(has_s)}{int(sflag)}_{ct}_{at}_p{k % len(POSES)}_x{extra}", [new(), step, FIN]))
@@ -676,6 +695,14 @@ def c05_programs(seed, tier):
     sets, pm = pose_parts(POSES[2])
     step = pc(proto, pts=pts, setters=sets); step["pose_matrix"] = pm
     out.append(prog("view_multi_packet", [new(), step, FIN], opts=[[True, True, False, True, True, True], [False] * 6]))
+    # wide points: fewer than a thousand points per data packet
+    wide = [coord_rec(n, "double") for n in ("cartesianX", "cartesianY", "cartesianZ")] + [rec("timeStamp", "double")] + \
+           [rec(f"e{i}", "double", ns="ext") for i in range(5)] + [rec("intensity", "int", 0, 7)]
+    n = 2300 if tier == "quick" else 4000
+    pts = [[v_f64((i % 64) * 0.25), v_f64(-(i % 5)), v_f64(1.0), v_f64(i * 0.5)] + [v_f64(float(i + j)) for j in range(5)] + [v_int(i % 8)] for i in range(n)]
+    step = pc(wide, pts=pts)
+    step["pose_matrix"] = None
+    out.append(prog("view_multi_packet_wide", [new(), {"op": "ext", "ns": "ext", "url": "urn:ext"}, step, FIN], opts=[[True, True, False, True, True, True], [False] * 6]))
     return out
 
 
@@ -727,6 +754,20 @@ def c13_programs(seed, tier):
     sweep("double_undeclared_max", rec("intensity", "double"), [v_f64(0.0), v_f64(1.7976931348623157e308)])
     sweep("double_limits_equal", rec("intensity", "double"), dl, limits={"min": v_f64(2.0), "max": v_f64(2.0)})
     sweep("double_limits_extreme", rec("intensity", "double", f64(0.0), f64(1.0)), dl, limits={"min": v_f64(-1.7976931348623157e308), "max": v_f64(1.7976931348623157e308)})
+    # the three colour channels are independent: different declared ranges per channel, with default, reset and overridden limits
+    def colour3(name, recs, values, limits="default"):
+        proto = XYZ + [dict(r, name=n) for r, n in zip(recs, ("colorRed", "colorGreen", "colorBlue"))]
+        pts = [[v_f32(1.0), v_f32(0.0), v_f32(0.0)] + list(v) for v in values]
+        sets = [] if limits == "default" else [setter("color_limits", limits)]
+        out.append(prog(name, [new(), pc(proto, pts=pts, setters=sets), FIN],
+                        opts=[[False, False, False, False, True, True], [False, False, False, True, False, False]]))
+    r8, r10, r4 = rec("c", "int", 0, 255), rec("c", "int", 0, 1023), rec("c", "int", 2, 17)
+    vals = [(v_int(i * 17 % 256), v_int(i * 64 % 1024), v_int(2 + i % 16)) for i in range(17)]
+    colour3("colour_distinct_default", [r8, r10, r4], vals)
+    colour3("colour_distinct_reset", [r8, r10, r4], vals, limits=None)
+    colour3("colour_distinct_perm", [r4, r8, r10], [(c, a, b) for (a, b, c) in vals], limits=None)
+    colour3("colour_distinct_floats", [rec("c", "single", f32(0.0), f32(1.0)), rec("c", "double", f64(0.0), f64(2.0)), rec("c", "sint", 0, 16, 0.25, 1.0)],
+            [(v_f32(i / 8), v_f64(i / 4), v_sint(i * 2)) for i in range(9)], limits=None)
     sweep("double_color_limits", rec("intensity", "double", f64(0.0), f64(8.0)), dl, color=True,
           limits={"rmin": v_f64(0.0), "rmax": v_f64(4.0), "gmin": v_f64(1.0), "gmax": v_f64(2.0), "bmin": v_f64(-2.0), "bmax": v_f64(0.0)})
     return out
